@@ -14,6 +14,12 @@ Case kinds
             on the permuted vectors.
   getv    : `_get_v(n, sigma_k)` against the model's V (exact rationals), as coded and as defined
   ranks   : `scipy.stats.rankdata` against the model's tie-averaged ranks (exact)
+  session : (round 4) the SAME two objects (float64 ndarrays, RDMs objects, read-only arrays,
+            non-contiguous views, one object passed twice) handed to 2-4 successive `compare()` calls
+            with different methods; every call is judged against the definition on a pristine copy
+            of the original stacks, the inputs must be bit-identical after every call, and a valid
+            read-only input must not raise.  Model: `Rsa.Compare.sessionRun` (heap model of a call,
+            aliasing / in-place flags regenerated from the source text).
 """
 import importlib
 import itertools
@@ -54,6 +60,9 @@ THEOREMS = [P + n for n in (
     'sigmaHat_entry', 'riemGram_value', 'negRiem_contract',
     'bures_symm', 'bures_self', 'bures_cond_perm', 'bures_nonneg',
     'getV_gram_psd', 'whitened_psd_props',
+    # round 4: reuse sessions
+    'session_call_pure', 'session_results_eq_definition', 'coded_call_safe', 'compare_session_pure',
+    'session_corr_is_corr', 'session_alias_inplace_witness',
 )]
 RULE = ('cases come from one PRNG: kind compare (n = 3..7 conditions, stacks of 1..4 RDMs, '
         'small integer / quarter-valued dissimilarities with many ties, negatives, occasional '
@@ -61,7 +70,9 @@ RULE = ('cases come from one PRNG: kind compare (n = 3..7 conditions, stacks of 
         'vector / SPD matrix; arrays, RDMs objects or mixed; a simultaneous condition '
         'permutation; squared Euclidean distances of integer point sets for the Bures '
         'measures), kind getv (V against the definition, exact) and kind ranks (rankdata, '
-        'exact). A case is non-trivial when at least one compared RDM is non-constant; '
+        'exact), kind session (the same two float64 objects - ndarray, RDMs, read-only, strided view, '
+        'mixed, one object twice - through 2-4 successive compare() calls, shift-invariant measures '
+        'first, then non-invariant ones; inputs bit-identical after every call). A case is non-trivial when at least one compared RDM is non-constant; '
         'distinct = distinct (kind, method, n, stacks, sigma_k, input form, permutation).')
 METHODS = ['cosine', 'corr', 'spearman', 'kendall', 'tau-b', 'tau-a', 'rho-a',
            'corr_cov', 'cosine_cov', 'bures', 'bures_metric']
@@ -76,7 +87,12 @@ BRANCHES = (['method:' + m for m in METHODS] +
              'dtype:bool', 'layout:C', 'layout:F', 'layout:strided',
              # round 3
              'coded_vs_spec', 'kind:passes', 'passes:joint_ties', 'passes:joint_run>=3', 'passes:no_ties',
-             'passes:xtie_only', 'kind:riem', 'riem:sigma_none', 'riem:sigma_mat', 'riem:full_run'])
+             'passes:xtie_only', 'kind:riem', 'riem:sigma_none', 'riem:sigma_mat', 'riem:full_run',
+             # round 4
+             'kind:session', 'session:ndarray', 'session:rdms', 'session:mixed', 'session:readonly',
+             'session:view', 'session:rdms_readonly', 'session:same_object', 'session:centre_then_noninv',
+             'session:rank_then_noninv', 'session:bures_after', 'session:cov_after', 'session:len>=3',
+             'session:stack>1', 'session:sigma_refilled', 'single_call_inputs_intact'])
 ASSUMPTIONS = [
     'IEEE evaluation of either side is within the stated tolerance of the real value '
     '(inputs are small integers / quarters, n <= 7, well-conditioned sigma_k)',
@@ -171,6 +187,12 @@ def _typed(stack, dtype, layout):
     return a
 
 
+def _snap(obj):
+    """bit pattern of the caller's data: an ndarray, or the dissimilarities of an RDMs object"""
+    a = obj if isinstance(obj, np.ndarray) else obj.dissimilarities
+    return (a.dtype.str, a.shape, np.ascontiguousarray(a).tobytes())
+
+
 def _call(x, y, method, sigma, form, dtypes=('float64', 'float64'), layout='C'):
     from rsatoolbox.rdm import RDMs
     from scipy.spatial.distance import squareform
@@ -186,11 +208,15 @@ def _call(x, y, method, sigma, form, dtypes=('float64', 'float64'), layout='C'):
         if form == 'rdms_sq':        # RDMs objects built from stacks of square matrices
             xa = RDMs(dissimilarities=np.array([squareform(v) for v in xa]))
             ya = RDMs(dissimilarities=np.array([squareform(v) for v in ya]))
+        before = (_snap(xa), _snap(ya))
         with np.errstate(all='ignore'):
             import warnings
             with warnings.catch_warnings():
                 warnings.simplefilter('ignore')
-                return _mat_out(_cmp.compare(xa, ya, method=method, sigma_k=_sigma_np(sigma)))
+                res = _mat_out(_cmp.compare(xa, ya, method=method, sigma_k=_sigma_np(sigma)))
+        if (_snap(xa), _snap(ya)) != before:
+            return {'exc': 'InputModified'}      # compare() changed the caller's data
+        return res
     except (ValueError, TypeError, AssertionError, IndexError, ZeroDivisionError,
             np.linalg.LinAlgError, AttributeError) as exc:
         return {'exc': type(exc).__name__}
@@ -352,6 +378,47 @@ def _riem_case(rng, tier, full):
     return {'kind': 'riem', 'n': n, 'x': x, 'y': y, 'sigma': sigma, 'full': full,
             'form': rng.choice(['array', 'rdms'])}
 
+SHIFT_INV = ['corr', 'corr_cov', 'corr', 'corr_cov', 'spearman', 'rho-a', 'kendall', 'tau-a']
+NON_INV = ['cosine', 'cosine_cov', 'bures', 'bures_metric', 'cosine', 'cosine_cov']
+CONTAINERS = ['ndarray', 'rdms', 'mixed', 'readonly', 'view', 'rdms_readonly']
+
+
+def _session_case(rng, nmax=6, k=None):
+    """the same two objects through 2-4 successive compare() calls: shift-invariant measures first
+    (they may centre / rank), then measures that are not invariant to a row shift"""
+    n = rng.randint(3, nmax)
+    m = n * (n - 1) // 2
+    k1, k2 = rng.choice([1, 1, 2]), rng.choice([1, 1, 2])
+    refill = None
+    r = rng.random()
+    if k is not None:                             # stratified: every container / shape of session is reached
+        r = 0.0 if k % 8 == 5 else (0.2 if k % 8 == 2 else 0.5)
+    if r < 0.12:                                  # whitened measures with a sigma_k array the caller refills
+        names = [rng.choice(['cosine_cov', 'corr_cov']) for _ in range(rng.randint(2, 3))]
+        refill = rng.choice(['vec', 'mat'])
+    elif r < 0.27:                                # any order, any methods
+        names = [rng.choice(METHODS) for _ in range(rng.randint(2, 4))]
+    else:
+        names = [rng.choice(SHIFT_INV) for _ in range(k1)] + [rng.choice(NON_INV) for _ in range(k2)]
+    steps = []
+    for nm in names:
+        sg = None
+        if nm in ('corr_cov', 'cosine_cov'):
+            sg = _sigma(rng, n, refill or rng.choice(['none', 'none', 'vec', 'mat']))
+        steps.append({'method': nm, 'sigma': sg})
+    nx, ny = rng.choice([1, 2, 3]), rng.choice([1, 2, 3])
+    if any(nm.startswith('bures') for nm in names) or rng.random() < 0.4:
+        x = [_euclid(rng, n) for _ in range(nx)]
+        y = [_euclid(rng, n) for _ in range(ny)]
+    else:
+        styles = ['ties', 'neg', 'quarters', 'distinct', 'distinct']
+        x = [_vector(rng, m, rng.choice(styles)) for _ in range(nx)]
+        y = [_vector(rng, m, rng.choice(styles)) for _ in range(ny)]
+    same = rng.random() < 0.15 if k is None else (k % 7 == 3)
+    cont = rng.choice(CONTAINERS) if k is None else CONTAINERS[k % len(CONTAINERS)]
+    return {'kind': 'session', 'n': n, 'x': x, 'y': x if same else y, 'same': same,
+            'container': cont, 'steps': steps}
+
 
 def generate(rng, tier):
     per_method = 36 if tier == 'quick' else 900
@@ -371,6 +438,8 @@ def generate(rng, tier):
         yield _passes_case(rng, tier)
     for k in range(14 if tier == 'quick' else 200):
         yield _riem_case(rng, tier, full=(k % 7 == 0))
+    for k in range(72 if tier == 'quick' else 1500):
+        yield _session_case(rng, nmax, k)
     if tier == 'thorough':
         # exhaustive: all pairs of 3-condition RDMs with entries in {0,1,2} for the rank / count measures
         vals = list(itertools.product(range(3), repeat=3))
@@ -385,6 +454,9 @@ def generate(rng, tier):
 def search(rng, tier):
     """failing-input search: the same space, smaller sizes first, every method and sigma kind"""
     for k in range(100000):
+        if k % 3 == 2:
+            yield _session_case(rng, 4 if k < 200 else 6)      # multi-call sessions on the same objects
+            continue
         method = METHODS[k % len(METHODS)]
         yield _compare_case(rng, method, 4 if k < 200 else 6)
 
@@ -468,8 +540,70 @@ def run_impl(case):
     except LIB_EXC as exc:
         return {'exc': type(exc).__name__}
 
+def _session_objects(case):
+    """the two objects of a session (built once, then reused by every call) and everything whose
+    bits must stay the same: the arrays themselves and, for views, the buffers they look into"""
+    from rsatoolbox.rdm import RDMs
+    cont = case['container']
+
+    def arr(stack):
+        a = _arr(stack)
+        keep = [a]
+        if cont == 'view':
+            big = np.zeros((2 * a.shape[0], 2 * a.shape[1] + 1), dtype=float)
+            big[::2, 1::2] = a
+            a = big[::2, 1::2]
+            keep = [a, big]
+        if cont in ('readonly', 'rdms_readonly'):
+            a.setflags(write=False)
+        return a, keep
+    xa, kx = arr(case['x'])
+    if case.get('same'):
+        ya, ky = xa, []
+    else:
+        ya, ky = arr(case['y'])
+    xo, yo = xa, ya
+    if cont in ('rdms', 'mixed', 'rdms_readonly'):
+        xo = RDMs(dissimilarities=xa)
+        kx.append(xo)
+    if case.get('same'):
+        yo = xo
+    elif cont in ('rdms', 'rdms_readonly'):
+        yo = RDMs(dissimilarities=ya)
+        ky.append(yo)
+    return xo, yo, kx + ky
+
+
+def _session_steps(case):
+    """run the calls one after the other on the same objects; after each: result, inputs intact?"""
+    import warnings
+    xo, yo, keep = _session_objects(case)
+    before = [_snap(k) for k in keep]
+    out = []
+    bufs = {}            # one sigma_k array per shape, refilled in place by the "caller" between calls
+    for st in case['steps']:
+        sg = _sigma_np(st['sigma'])
+        if sg is not None:
+            if sg.shape in bufs:
+                bufs[sg.shape][...] = sg
+            else:
+                bufs[sg.shape] = sg.copy()
+            sg = bufs[sg.shape]
+        sg_before = None if sg is None else sg.tobytes()
+        try:
+            with np.errstate(all='ignore'), warnings.catch_warnings():
+                warnings.simplefilter('ignore')
+                res = _mat_out(_cmp.compare(xo, yo, method=st['method'], sigma_k=sg))
+        except LIB_EXC as exc:
+            res = {'exc': type(exc).__name__}
+        out.append({'result': res, 'intact': [_snap(k) for k in keep] == before
+                    and (sg is None or sg.tobytes() == sg_before)})
+    return out
+
 
 def _run_impl(case):
+    if case['kind'] == 'session':
+        return _session_steps(case)
     if case['kind'] == 'passes':
         return _impl_passes(case)
     if case['kind'] == 'riem':
@@ -532,6 +666,12 @@ SPEC_TWIN = ('cosine', 'corr', 'spearman', 'tau-a', 'rho-a', 'corr_cov', 'cosine
 
 
 def model_requests(case):
+    if case['kind'] == 'session':
+        enc = lambda v: fbits(_fl(v))   # noqa: E731
+        return [{'op': 'c03.session', 'n': case['n'], 'same': bool(case.get('same')),
+                 'x': [[enc(v) for v in r] for r in case['x']], 'y': [[enc(v) for v in r] for r in case['y']],
+                 'steps': [{'method': st['method'], 'sigma': _sigma_wire(st['sigma'], enc)}
+                           for st in case['steps']]}]
     if case['kind'] == 'passes':
         return [{'op': 'c03.passes', 'x': [rat(unrat(v)) for v in case['x']],
                  'y': [rat(unrat(v)) for v in case['y']]}]
@@ -568,7 +708,17 @@ def _decode(case, ans):
     return [[None if v is None else unfbits(v) for v in row] for row in ans]
 
 
+def _dec_f(m):
+    return [[None if v is None else unfbits(v) for v in row] for row in m]
+
+
 def model_result(case, answers):
+    if case['kind'] == 'session':
+        a = answers[0]
+        if not isinstance(a, dict) or 'results' not in a:
+            return {'model_error': a}
+        return {'results': [_dec_f(m) for m in a['results']], 'spec': [_dec_f(m) for m in a['spec']],
+                'cells': [_dec_f(m) for m in a['cells']]}
     if case['kind'] in ('getv', 'ranks', 'reject', 'passes'):
         return answers[0]
     if case['kind'] == 'riem':
@@ -622,8 +772,29 @@ def _diff_matrix(a, b, rtol, atol, undefined_ok):
 def compare(case, impl, model):
     if isinstance(model, dict) and 'model_error' in model:
         return f'model error {model}'
-    if case['kind'] in ('getv', 'ranks', 'passes', 'riem') and isinstance(impl, dict) and set(impl) == {'exc'}:
+    if case['kind'] in ('getv', 'ranks', 'passes', 'riem', 'session') and isinstance(impl, dict) and set(impl) == {'exc'}:
         return f"{case['kind']}: the library raised {impl['exc']} on valid input"
+    if case['kind'] == 'session':
+        orig = [[[_fl(v) for v in r] for r in case['x']], [[_fl(v) for v in r] for r in case['y']]]
+        if model['cells'] != orig:
+            return 'model: the heap model as coded changes the caller\'s stacks during the session'
+        for k, st in enumerate(case['steps']):
+            d = _diff_matrix(model['results'][k], model['spec'][k], 0.0, 0.0, True)
+            if d:
+                return (f"model: call {k} ({st['method']}) of the session as coded is not the measure of the "
+                        f"original stacks: {d}")
+        for k, st in enumerate(case['steps']):
+            r = impl[k]
+            if isinstance(r['result'], dict):
+                return f"session call {k} ({st['method']}, {case['container']}): the library raised {r['result']}"
+            rtol, atol = tolerance({'method': st['method'], 'sigma': st['sigma']})
+            d = _diff_matrix(r['result'], model['spec'][k], rtol, atol,
+                             st['method'] in ('corr_cov', 'cosine_cov'))
+            if d:
+                return f"session call {k} ({st['method']} after {[t['method'] for t in case['steps'][:k]]}) {d}"
+            if not r['intact']:
+                return f"session call {k} ({st['method']}) modified its input ({case['container']})"
+        return None
     if case['kind'] == 'getv':
         if model['coded'] != model['spec']:
             return 'model: V as coded differs from V as defined'
@@ -709,6 +880,11 @@ def _is_const(v):
     return len(set(unrat(a) for a in v)) <= 1
 
 
+def json_key(v):
+    import json
+    return json.dumps(v, sort_keys=True, default=str)
+
+
 def sigma_kind(sig):
     if sig is None:
         return 'none'
@@ -735,6 +911,32 @@ def features(case, impl):
         if mult < 2 and len({p[0] for p in pts}) < len(pts):
             br.append('passes:xtie_only')
         return {'kind': 'passes', 'm': len(pts), 'joint_mult': mult, 'branches': br}
+    if case['kind'] == 'session':
+        names = [st['method'] for st in case['steps']]
+        br = ['kind:session', 'session:' + case['container']]
+        if case.get('same'):
+            br.append('session:same_object')
+        for k, nm in enumerate(names):
+            later = names[k + 1:]
+            if nm in ('corr', 'corr_cov') and any(t in NON_INV for t in later):
+                br.append('session:centre_then_noninv')
+            if nm in ('spearman', 'rho-a', 'kendall', 'tau-a') and any(t in NON_INV for t in later):
+                br.append('session:rank_then_noninv')
+            if k > 0 and nm.startswith('bures'):
+                br.append('session:bures_after')
+            if k > 0 and nm == 'cosine_cov':
+                br.append('session:cov_after')
+        sgs = [json_key(st['sigma']) for st in case['steps'] if st['sigma'] is not None]
+        shapes = [('vec' if 'vec' in st['sigma'] else 'mat') for st in case['steps'] if st['sigma'] is not None]
+        if any(shapes[i] == shapes[j] and sgs[i] != sgs[j] for i in range(len(sgs)) for j in range(i + 1, len(sgs))):
+            br.append('session:sigma_refilled')
+        if len(names) >= 3:
+            br.append('session:len>=3')
+        if len(case['x']) > 1 and len(case['y']) > 1:
+            br.append('session:stack>1')
+        return {'kind': 'session', 'n': case['n'], 'container': case['container'], 'n_calls': len(names),
+                'same_object': bool(case.get('same')), 'first_method': names[0], 'last_method': names[-1],
+                'branches': sorted(set(br))}
     if case['kind'] == 'riem':
         br = ['kind:riem', 'riem:sigma_' + ('none' if case['sigma'] is None else 'mat')]
         if case['full']:
@@ -757,6 +959,8 @@ def features(case, impl):
     if 'float32' in dt:
         br.append('dtype:float32')
     br.append('layout:' + case.get('layout', 'C'))
+    if isinstance(impl, dict) and not any(v == {'exc': 'InputModified'} for v in impl.values()):
+        br.append('single_call_inputs_intact')
     if case['method'].startswith('bures'):
         br.append('bures:second_way')
     if case['method'] in SPEC_TWIN:
@@ -787,7 +991,7 @@ def features(case, impl):
 
 
 def nontrivial_key(case, impl):
-    if case['kind'] == 'compare' and all(_is_const(v) for v in case['x'] + case['y']):
+    if case['kind'] in ('compare', 'session') and all(_is_const(v) for v in case['x'] + case['y']):
         return None
     return case
 
@@ -818,6 +1022,8 @@ def oracle(case):
         c = {'kind': 'compare', 'method': 'tau-a', 'n': None, 'x': [case['x']], 'y': [case['y']],
              'sigma': None, 'form': 'array', 'perm': None}
         return orc.check_pair_only(c, lambda x, y: _call(x, y, 'tau-a', None, 'array'))
+    if case['kind'] == 'session':
+        return orc.check_session(case, _session_steps)
     if case['kind'] == 'riem':
         r = run_impl(case)
         if isinstance(r, dict) and 'exc' in r:
@@ -831,7 +1037,45 @@ def oracle(case):
     return orc.check_compare(case, call, permute_vec, permute_sigma)
 
 
+def _shrink_session(case, still_fails0):
+    # keep the *kind* of failure (a wrong value of a later call must not shrink to the purity failure of
+    # the first call alone)
+    claim0 = ((oracle(case) or {}).get('features') or {}).get('claim')
+
+    def still_fails(c):
+        return bool(still_fails0(c)) and ((oracle(c) or {}).get('features') or {}).get('claim') == claim0
+    best = case
+    st = best['steps']
+    done = False
+    for i in range(len(st)):                      # a single call, then an ordered pair of calls
+        c = dict(best, steps=[st[i]])
+        if still_fails(c):
+            best, done = c, True
+            break
+    if not done and len(st) > 2:
+        for i in range(len(st)):
+            for j in range(i + 1, len(st)):
+                c = dict(best, steps=[st[i], st[j]])
+                if not done and still_fails(c):
+                    best, done = c, True
+    if not best.get('same') and (len(best['x']) > 1 or len(best['y']) > 1):
+        done = False
+        for xi in best['x']:
+            for yi in best['y']:
+                c = dict(best, x=[xi], y=[yi])
+                if not done and still_fails(c):
+                    best, done = c, True
+    for key, val in (('container', 'ndarray'), ('same', False)):
+        if best.get(key) != val:
+            c = dict(best, **{key: val})
+            if still_fails(c):
+                best = c
+    return best
+
+
 def shrink(case, still_fails):
+    if case['kind'] == 'session':
+        return _shrink_session(case, still_fails)
     if case['kind'] != 'compare':
         return case
     best = case
